@@ -80,16 +80,17 @@ class SimEnv(gym.Env):
     metadata = {"render_modes": []}
 
     def __init__(self, script, obs_dim=3, act_dim=1, discrete=0, low=-1.0, high=1.0,
-                 tail_len=7, tail_end="trunc", max_steps=10_000, space_seed=0, name="env"):
+                 tail_len=7, tail_end="trunc", max_steps=10_000, space_seed=0, name="env", act_dtype="float32"):
         self.script = script
         self.obs_dim = obs_dim
         self.observation_space = gym.spaces.Box(-np.inf, np.inf, (obs_dim,), np.float32)
         if discrete:
             self.action_space = RecDiscrete(discrete)
         else:
-            lo = np.broadcast_to(np.asarray(low, dtype=np.float32), (act_dim,)).copy()
-            hi = np.broadcast_to(np.asarray(high, dtype=np.float32), (act_dim,)).copy()
-            self.action_space = RecBox(lo, hi, (act_dim,), np.float32)
+            dt = np.dtype(act_dtype)  # float64 action spaces are legal in gymnasium, if unusual
+            lo = np.broadcast_to(np.asarray(low, dtype=dt), (act_dim,)).copy()
+            hi = np.broadcast_to(np.asarray(high, dtype=dt), (act_dim,)).copy()
+            self.action_space = RecBox(lo, hi, (act_dim,), dt.type)
         self.action_space.seed(space_seed)
         self.action_space.on_sample = self._on_sample
         self.discrete = discrete
